@@ -64,7 +64,23 @@ RESOURCE = ['Resource limit (rlimit) exceeded', 'rlimit', 'timed out', 'out of m
 
 
 def sh(cmd, **kw):
-    return subprocess.run(cmd, stdout=subprocess.PIPE, stderr=subprocess.PIPE, text=True, **kw)
+    """run a command in its own process group; a timeout kills the whole group (verus starts z3 processes as children)"""
+    import signal
+    timeout = kw.pop('timeout', None)
+    p = subprocess.Popen(cmd, stdout=subprocess.PIPE, stderr=subprocess.PIPE, text=True, start_new_session=True, **kw)
+    try:
+        out, err = p.communicate(timeout=timeout)
+    except BaseException:
+        try:
+            os.killpg(p.pid, signal.SIGKILL)
+        except Exception:
+            pass
+        try:
+            p.communicate(timeout=10)
+        except Exception:
+            pass
+        raise
+    return subprocess.CompletedProcess(cmd, p.returncode, out, err)
 
 
 def load_registry():
